@@ -140,7 +140,7 @@ theorem kotlinMsg_hit (line col msg : List Char) (hl : digitsOK line = true) (hc
   rw [e, digits1_append col ':' _ hne2 hd2 isDigitPy_colon]
   simp only [eat, beq_self_eq_true, if_true]
   rw [spaces1_single 'e' _ (by decide)]
-  simp [eat, spaces1, List.dropWhile_cons]
+  simp [eat, spaces1]
 
 theorem kotlinTail_hit (line col msg R : List Char) (hl : digitsOK line = true)
     (hc : digitsOK col = true) (hm : '\n' ∉ msg) :
